@@ -206,7 +206,7 @@ fn cmd_check(args: &[String]) -> i32 {
         if let Err((msg, file, threads, children)) = r {
             // classify: which property does this failure speak about?
             let first = msg.lines().next().unwrap_or("").to_string();
-            let liveness_failure = first.contains("deadlock") || first.contains("exceeded max_steps") || first.contains("C02") || first.contains("C11") || first.contains("C05") || first.contains("C04/C07");
+            let liveness_failure = first.contains("deadlock") || first.contains("exceeded max_steps") || first.contains("C02") || first.contains("C11") || first.contains("C05") || first.contains("C04/C07") || first.contains("C07") || first.contains("C10");
             let about = if first.contains("C03") || first.contains("UnsafeCell") {
                 "C03"
             } else if liveness_failure {
@@ -249,7 +249,7 @@ fn cmd_check(args: &[String]) -> i32 {
     let distinct = ORDER_HASHES.lock().ok().and_then(|g| g.as_ref().map(|s| s.len())).unwrap_or(0);
     let hits = reg::hits_total();
     let ev = format!(
-        "{{\"layer\":\"L2 fbthreads (shuttle; cordyceps, diatomic-waker and the slot lock on shuttle atomics)\",\"property_id\":\"{}\",\"seed\":{},\"executions\":{},\"iterations_per_worker\":{},\"workers\":{},\"schedulers\":{:?},\"distinct_event_orders\":{},\"polls\":{},\"pending_results\":{},\"task_parks\":{},\"waker_invocations\":{},\"wakes_overlapping_a_poll\":{},\"stale_wakes\":{},\"wakes_after_collection_dropped\":{},\"waker_clones_by_children\":{},\"collection_dropped_early\":{},\"fresh_task_wakers\":{},\"subjects\":{{\"FuturesUnorderedBounded\":{},\"FuturesUnordered\":{},\"FuturesOrdered\":{},\"MergeBounded\":{},\"MergeUnbounded\":{},\"FuturesOrderedBounded\":{},\"buffered_unordered\":{},\"buffered_ordered\":{},\"join_all\":{}}},\"reach_probes\":{{\"budget_exhausted\":{},\"queue_inconsistent\":{},\"vacant_slot_popped\":{},\"group_created\":{},\"group_discarded\":{},\"group_rotated\":{},\"merge_rearmed\":{},\"merge_source_removed\":{}}},\"waker_blocks_audited\":{},\"unsafe_cell_overlaps\":{},\"violations\":[{}],\"violations_counted\":{},\"wall_s\":{:.2}}}",
+        "{{\"layer\":\"L2 fbthreads (shuttle; cordyceps, diatomic-waker and the slot lock on shuttle atomics)\",\"property_id\":\"{}\",\"seed\":{},\"executions\":{},\"iterations_per_worker\":{},\"workers\":{},\"schedulers\":{:?},\"distinct_event_orders\":{},\"polls\":{},\"pending_results\":{},\"task_parks\":{},\"waker_invocations\":{},\"wakes_overlapping_a_poll\":{},\"stale_wakes\":{},\"wakes_after_collection_dropped\":{},\"waker_clones_by_children\":{},\"collection_dropped_early\":{},\"fresh_task_wakers\":{},\"subjects\":{{\"FuturesUnorderedBounded\":{},\"FuturesUnordered\":{},\"FuturesOrdered\":{},\"MergeBounded\":{},\"MergeUnbounded\":{},\"FuturesOrderedBounded\":{},\"buffered_unordered\":{},\"buffered_ordered\":{},\"join_all\":{},\"try_join_all\":{},\"for_each_concurrent\":{},\"try_buffered_unordered\":{}}},\"reach_probes\":{{\"budget_exhausted\":{},\"queue_inconsistent\":{},\"vacant_slot_popped\":{},\"group_created\":{},\"group_discarded\":{},\"group_rotated\":{},\"merge_rearmed\":{},\"merge_source_removed\":{}}},\"waker_blocks_audited\":{},\"unsafe_cell_overlaps\":{},\"violations\":[{}],\"violations_counted\":{},\"wall_s\":{:.2}}}",
         prop,
         seed,
         EXECS.load(Ordering::Relaxed),
@@ -276,6 +276,9 @@ fn cmd_check(args: &[String]) -> i32 {
         SUBJECTS[6].load(Ordering::Relaxed),
         SUBJECTS[7].load(Ordering::Relaxed),
         SUBJECTS[8].load(Ordering::Relaxed),
+        SUBJECTS[9].load(Ordering::Relaxed),
+        SUBJECTS[10].load(Ordering::Relaxed),
+        SUBJECTS[11].load(Ordering::Relaxed),
         hits[0],
         hits[1],
         hits[2],
